@@ -291,3 +291,29 @@ package parsley
 //@ func NewErrorf(pos Pos, format string, values ...interface{}) (r Error)
 //@   ensures r != nil && r.Pos() == pos && typeis[err](r)
 //@   assigns nothing
+
+//@ -- ------------------------------------------------------------ Parse / Evaluate
+//@ props C04,C06
+
+//@ interface parsley.Transformable.Transform(n Transformable, userCtx interface{}) (r Node, err Error)
+//@   requires n != nil
+//@   ensures  [result;C04] (r == nil) != (err == nil)
+//@   assigns  fields[Context](), fields[Result](), maps[ResultCache](), maps[map[Pos]*Result](), GhostCurtailed, GhostMaxFail, GhostCalls
+
+//@ func Transform(userCtx interface{}, node Node) (r Node, err Error)
+//@   requires node != nil
+//@   ensures  [result;C04] (r == nil) != (err == nil)
+//@   assigns  fields[Context](), fields[Result](), maps[ResultCache](), maps[map[Pos]*Result](), GhostCurtailed, GhostMaxFail, GhostCalls
+
+//@ func StaticCheck(userCtx interface{}, node Node) (err Error)
+//@   requires node != nil && NodeOK(node)
+//@   assigns  fields[Context](), fields[Result](), maps[ResultCache](), maps[map[Pos]*Result](), GhostCurtailed, GhostMaxFail, GhostCalls
+//@   flag trusted
+
+//@ -- Parse: exactly one of a node or an error, for every root parser that satisfies the Parser contract
+//@ func Parse(ctx *Context, p Parser) (n Node, err error)
+//@   requires p != nil && WfCtx(ctx) && WfCache(ctx) && ctx.fileSet != nil && wfFS(ctx.fileSet) && sortedOffsets(ctx.fileSet)
+//@   requires ctx.reader.Remaining(ctx.reader.Pos(0)) >= 0 && ctx.reader.Pos(0) >= 0
+//@   requires GhostFloorPos < ctx.reader.Pos(0)
+//@   ensures  [one-of;C04] (n == nil) != (err == nil)
+//@   assigns  fields[Context](), fields[Result](), fields[File](), maps[ResultCache](), maps[map[Pos]*Result](), maps[map[string]*regexp.Regexp](), GhostCurtailed, GhostMaxFail, GhostCalls, GhostFloorPos, GhostFloorLrc, GhostLo, GhostHi
